@@ -10,7 +10,7 @@ L_NOTE = ("Trusted: Lean kernel + {propext, Classical.choice, Quot.sound}; the h
           "layouts below 2^63 (usize wrap-around not modelled).")
 
 V_NOTE = ("Trusted: Lean kernel + standard axioms; slot-machine model of convert.rs tied to the code by channel V (every script of "
-          "length <= 5 (quick) / 6 (thorough) over 10 converter outcomes (convert, touch / replace the previous output then convert or abandon, abandon, error, three kinds of panic) + random long scripts, four equal-layout and four "
+          "length <= 5 (quick) / 6 (thorough) over 10 converter outcomes (convert, touch / replace the previous output then convert or abandon, abandon, error, three kinds of panic) + random long scripts, five equal-layout (one whose input type has padding under the output type's data) and four "
           "unequal-layout element type pairs, zero-size elements by counts, debug and optimised builds, ledger + counting "
           "allocator + payload identity). Modelled not verified: Vec::set_len/transmute, catch_unwind; converter contract assumed.")
 
@@ -59,7 +59,7 @@ CLAIMS = {
          "and uninit flag (C20_same_type_information: equal multisets of type information per pair). Loop invariant RInv by induction over the "
          "source variants; the premise (ids never reused, consecutive variants differ, unique names) is proved for every builder output "
          "(builder_srcChain). C20_map_keys_any_source for arbitrary sources. Channel L `replay` requests compare the implementation with the Lean "
-         "replay model; an independent oracle checks the implementation's output.", "4 C20", L_NOTE,
+         "replay model; an independent oracle checks the implementation's output. Every native replay is repeated into a builder that already owns closed variants (oracle only: the model starts from a fresh builder).", "4 C20", L_NOTE,
          "Lean 4 theorem (loop invariant over source variants, induction over histories) + correspondence"),
  "C08": ("Refinement theorem: the unsafe loop, modelled slot by slot with use-after-move/overwrite/type-confusion as explicit errors, "
          "equals the plain left-to-right pass for every input length and every converter (tryConvert_refines, three-region "
